@@ -97,8 +97,8 @@ func (s *sessions) update(h Header, n Handler) {
 func (s *sessions) delete(session SessionID) {
 	s.Lock()
 	defer s.Unlock()
-	sessionsActive.Dec()
 	if sc := s.known[session]; sc != nil {
+		sessionsActive.Dec()
 		sc.timer.ObserveDuration()
 	}
 	delete(s.known, session)
@@ -108,6 +108,7 @@ func (s *sessions) delete(session SessionID) {
 // close will stop all prom timers, it's the only reason we have this
 func (s *sessions) close() {
 	for _, r := range s.known {
+		sessionsActive.Dec()
 		r.timer.ObserveDuration()
 	}
 	vhook("s.close", s, len(s.known))
